@@ -40,6 +40,10 @@ Oracle, when `blocking_flush` returned true (otherwise the scenario is inconclus
 9. retry-budget sequences: a batch that fails on every attempt is given up, and the next batch - same
    signal or another one, afterwards or meanwhile - that fails once is sent again and acknowledged.
 
+10. a flush over several signals while one of them cannot deliver: `blocking_flush(T)` with a short T
+   inside the outage may return false (correct); if it returns true, every event accepted before it -
+   on every signal - is already in an acknowledged request.
+
 No verdict depends on a deadline: the waits are watchdogs that make the scenario inconclusive.
 */
 
@@ -1473,8 +1477,12 @@ fn main() {
     let opts = Opts { max_requests: args.get_u64("max-requests", if args.thorough() { 6 } else { 4 }) as usize };
 
     // process-global hooks, set once
-    let divisor = [100u32, 50, 150, 200][(seed % 4) as usize];
-    let timeout_ms = 250 + 25 * (seed % 3);
+    // Under a sanitizer everything is several times slower: with the usual 250-300 ms the emitter's own
+    // request timeout fires before a 1 MiB request has even left, invisibly to the collector, and whole retry
+    // budgets evaporate. Those lanes get a request timeout and back-off in proportion.
+    let slow = args.lane.contains("san") || args.get_u64("slow", 0) == 1;
+    let divisor = if slow { 25 } else { [100u32, 50, 150, 200][(seed % 4) as usize] };
+    let timeout_ms = if slow { 3_000 } else { 250 + 25 * (seed % 3) };
     emit_batcher::verif::set_delay_divisor(divisor);
     emit_otlp::verif::set_request_timeout(Some(Duration::from_millis(timeout_ms)));
     r.set("delay_divisor", json!(divisor));
